@@ -378,7 +378,7 @@ def run(facts, tier):
     from props import c16
     c16.guard_rules(facts, res, "R13-6", "R13-6c")
     import staleidx
-    staleidx.rule(facts, res, "R13-4", lambda f: f["crate"] in ("xml_info", "xml_dom"), floor=7)
+    staleidx.rule(facts, res, "R13-4", lambda f: f["crate"] in ("xml_info", "xml_dom"), floor=5)
     # the effect of append_child / insert_before on a node that is already in the tree includes its place in document order:
     # the order table drops the old key first (C14-4)
     from props import c14
